@@ -249,7 +249,7 @@ theorem fileOf_spec (s : FileSet) (h : WFSet s) (p : Int) :
       have e1 : ((r : Int) - 1).toNat = r - 1 := by omega
       have e2 : ((r : Int) - 1) ≥ 0 := by omega
       by_cases hin : p ≤ (s.files[r - 1]).base + (s.files[r - 1]).size
-      · refine ⟨some (r - 1), { s with last := some (r - 1) }, ?_, rfl, rfl, ?_, by simp⟩
+      · refine ⟨some (r - 1), s, ?_, rfl, rfl, ?_, by simp⟩
         · simp only [fileOf, hmiss]
           simp [h1, bind, Res.bind, e1, hv, hin]
           try omega
